@@ -326,6 +326,7 @@ def classify_api():
         "molecular_shape_descriptors", "molecular_shell", "symmetry_unique_dimers",
         "to_cartesian", "to_fractional", "unique_reflections", "structure_factors", "powder_pattern",
         "void_surface", "mesh_scene", "nearest_neighbour_info", "molecule_shape_descriptors",
+        "from_pdb_file", "from_gen_file", "from_gen_string",
     }  # fmt: skip
     out = []
     for name in sorted(dir(Crystal)):
